@@ -503,6 +503,10 @@ func (t *treeListIterator) Next() bool {
 }
 
 func (t *treeListIterator) start() bool {
+	// Forget the current node: start is also used to restart an iterator
+	// whose node has been deleted, and if the tree has since become empty,
+	// the loop below would otherwise leave the deleted node in place.
+	t.node = nil
 	next := t.list.root
 	for next != nil {
 		t.node = next
